@@ -7,15 +7,16 @@
    its view / refuses a size (lib_ret) is read off the Go source and validated
    by the two-run differential on real chains (harness/cmd/c13, set c13x). *)
 From IV Require Import Base.Word Model.Alias Proofs.AliasProofs Model.AliasChain Proofs.AliasChainProofs
-  Check.C13Check Check.C13ChainCheck.
+  Proofs.AliasChainMore Check.C13Check Check.C13ChainCheck.
 
 (* A call goes through a chain; every member either parses a private copy, or
-   keeps no view of any part (of the sizes passed), or reads the cache through a
-   private copy while no earlier member of the call parsed the caller's buffer in
-   place into the cache ([chain_ok]).  Then everything emitted is independent of
+   keeps no view of any part (of the sizes passed), or reads the cache - through
+   a private copy while the cache does not hold an in-place parse of the caller's
+   buffer, or directly after a member filled it from a private copy ([chain_ok],
+   cache bookkeeping CEmpty / CClean / CDirty).  Then everything emitted is independent of
    what the caller does to its buffers after the calls returned. *)
 Theorem C13b_chain_scribble_independent : forall (A : Type) (cfg : xconfig) (ops : list (xop A)),
-  (forall cs bufs, In (XCall cs bufs) ops -> chain_ok A cfg false cs bufs) ->
+  (forall cs bufs, In (XCall cs bufs) ops -> chain_ok A cfg CEmpty cs bufs) ->
   xoutputs A cfg ops = xoutputs A cfg (xstrip A ops).
 Proof. exact chain_scribble_independent. Qed.
 Print Assumptions C13b_chain_scribble_independent.
@@ -23,15 +24,15 @@ Print Assumptions C13b_chain_scribble_independent.
 (* Stronger: the outputs are those of the heap-free, cache-free copy semantics
    with admission (a refused call reaches no later member of the chain). *)
 Theorem C13b_chain_refines_copy_semantics : forall (A : Type) (cfg : xconfig) (ops : list (xop A)),
-  (forall cs bufs, In (XCall cs bufs) ops -> chain_ok A cfg false cs bufs) ->
+  (forall cs bufs, In (XCall cs bufs) ops -> chain_ok A cfg CEmpty cs bufs) ->
   xoutputs A cfg ops = xspec_outputs A cfg (xabstract A ops).
 Proof. exact chain_refines_copy_semantics. Qed.
 Print Assumptions C13b_chain_refines_copy_semantics.
 
 (* fresh allocation per packet vs one reused buffer, any scribbles in either run *)
 Theorem C13b_chain_location_independent : forall (A : Type) (cfg : xconfig) (ops1 ops2 : list (xop A)),
-  (forall cs bufs, In (XCall cs bufs) ops1 -> chain_ok A cfg false cs bufs) ->
-  (forall cs bufs, In (XCall cs bufs) ops2 -> chain_ok A cfg false cs bufs) ->
+  (forall cs bufs, In (XCall cs bufs) ops1 -> chain_ok A cfg CEmpty cs bufs) ->
+  (forall cs bufs, In (XCall cs bufs) ops2 -> chain_ok A cfg CEmpty cs bufs) ->
   xabstract A ops1 = xabstract A ops2 ->
   xoutputs A cfg ops1 = xoutputs A cfg ops2.
 Proof. exact chain_location_independent. Qed.
@@ -71,6 +72,18 @@ Theorem C13b_chain_generalises_single_component : forall (A : Type) (cfg : confi
 Proof. exact chain_generalises_alias. Qed.
 Print Assumptions C13b_chain_generalises_single_component.
 
+(* The cache condition of [chain_ok] is necessary: in ANY configuration, a member
+   that keeps its view and reads the cache (GetRTCPPackets, with or without a
+   private copy as argument), bound after a member that parses the caller's
+   buffer in place into the cache, shows what the caller wrote afterwards. *)
+Theorem C13b_chain_cache_condition_necessary : forall (A : Type) (cfg : xconfig) (x y : xcomp) (a b : A) (n : Z),
+  a <> b -> x <> y ->
+  par cfg x = PShared -> ret cfg x 0%nat n <> RReject ->
+  (par cfg y = PShared \/ par cfg y = PSharedCopy) -> ret cfg y 0%nat n = RRef ->
+  xoutputs A cfg (cache_history x y a b n) <> xoutputs A cfg (xstrip A (cache_history x y a b n)).
+Proof. intros A. exact inplace_parser_then_cached_view_depends. Qed.
+Print Assumptions C13b_chain_cache_condition_necessary.
+
 (* ---- the library tables at the places that matter ---- *)
 Theorem C13b_dump_receiver_rtcp_parses_private_copy : lib_par (Old DumpReceiverRtcp) = PPrivate /\
   forall p n, lib_ret (Old DumpReceiverRtcp) p n = RRef.
@@ -99,6 +112,14 @@ Theorem C13b_seeded_a_invisible_without_inplace_parser : forall (A : Type) (ops 
   xoutputs A seeded_a ops = xoutputs A seeded_a (xstrip A ops).
 Proof. intros A ops. exact (seeded_a_invisible_without_inplace_parser ops). Qed.
 Print Assumptions C13b_seeded_a_invisible_without_inplace_parser.
+
+(* ... also behind pkg/cc, which fills the cache from a private copy, whatever
+   in-place parsers sit between cc and the dumper ... *)
+Theorem C13b_seeded_a_invisible_behind_cc : forall (A : Type) (ops : list (xop A)),
+  (forall cs bufs, In (XCall cs bufs) ops -> cs = [RtcpCc; RtcpNack; RtcpReport; Old DumpReceiverRtcp]) ->
+  xoutputs A seeded_a ops = xoutputs A seeded_a (xstrip A ops).
+Proof. intros A ops. exact (seeded_a_invisible_behind_cc ops). Qed.
+Print Assumptions C13b_seeded_a_invisible_behind_cc.
 
 (* ... and visible behind the NACK responder: call, scribble, dump *)
 Theorem C13b_seeded_a_chain_depends : forall (A : Type) (a b : A) (n : Z), a <> b ->
@@ -143,6 +164,23 @@ Theorem C13b_outgoing_rtcp_stats_independent : forall (A : Type) (a b : A) (n : 
 Proof. intros A. exact outgoing_rtcp_stats_independent. Qed.
 Print Assumptions C13b_outgoing_rtcp_stats_independent.
 
+(* ---- the caller's attributes MAP (known finding): the gcc leaky bucket pacer
+   queues it and packetdump hands it to the logger goroutine; pacing clones it ---- *)
+Theorem C13b_scribble_independent_attributes_leaky_bucket_refuted : forall (A : Type) (a b : A) (n : Z), a <> b ->
+  xoutputs A lib_x (attr_history AttrLeakyBucket a b n) <> xoutputs A lib_x (xstrip A (attr_history AttrLeakyBucket a b n)).
+Proof. intros A. exact attr_leaky_bucket_depends. Qed.
+Print Assumptions C13b_scribble_independent_attributes_leaky_bucket_refuted.
+
+Theorem C13b_scribble_independent_attributes_packetdump_refuted : forall (A : Type) (a b : A) (n : Z), a <> b ->
+  xoutputs A lib_x (attr_history AttrDumpSender a b n) <> xoutputs A lib_x (xstrip A (attr_history AttrDumpSender a b n)).
+Proof. intros A. exact attr_dump_sender_depends. Qed.
+Print Assumptions C13b_scribble_independent_attributes_packetdump_refuted.
+
+Theorem C13b_attributes_pacing_independent : forall (A : Type) (a b : A) (n : Z),
+  xoutputs A lib_x (attr_history AttrPacing a b n) = [[[Some a]]].
+Proof. intros A. exact attr_pacing_independent. Qed.
+Print Assumptions C13b_attributes_pacing_independent.
+
 (* Non-vacuity: a five-member chain with every in-place parser in front of the
    dumper, two reads into ONE buffer scribbled after each read, satisfies the
    hypothesis of C13b_chain_scribble_independent for the library and dumps the
@@ -151,7 +189,7 @@ Example C13b_chain_scribble_independent_nonvacuous :
   let cs := [RtcpNack; RtcpReport; RtcpStats; RtcpRtpfb; Old DumpReceiverRtcp] in
   let ops := [XCall cs [(1, 10, 24)]; XScribble 1 99; XEmitAll (Old DumpReceiverRtcp); XDrop (Old DumpReceiverRtcp);
               XCall cs [(1, 11, 28)]; XScribble 1 98; XEmitAll (Old DumpReceiverRtcp)] in
-  (forall cs' bufs, In (XCall cs' bufs) ops -> chain_ok Z lib_x false cs' bufs) /\
+  (forall cs' bufs, In (XCall cs' bufs) ops -> chain_ok Z lib_x CEmpty cs' bufs) /\
   xoutputs Z lib_x ops = [[[Some 10]]; [[Some 11]]] /\
   xstrip Z ops <> ops /\
   xoutputs Z lib_x [XCall [Old DumpSender; Old NackCopy] [(1, 1, 12); (2, 2, 0); (3, 3, 0); (4, 4, 1461)];
